@@ -12,6 +12,8 @@ import (
 var domF = func() []float32 {
 	bits := func(u uint32) float32 { return math.Float32frombits(u) }
 	v := []float32{0, bits(0x80000000), 1, -1, 2, 63, 64, -64, -65, 127, 128, -128, 127.984375, -128.015625, 128.015625,
+		127.9921875, 127.995, bits(0x42ffffff), -128.0078125, -127.995, 63.9921875, -64.0078125, // round across the edge of the 2-byte / 1-byte ranges at low resolution
+
 		1.0 / 64, -1.0 / 64, 1.0 / 128, bits(0x3bffffff), bits(0x3c000001), 0.5, 0.25, 0.75, 7.5, -7.515625, 11.05, -8.95, 20.36,
 		16383, 16384, 16385, 16383.5, 1 << 24, 1<<24 + 2, 1 << 31, 1 << 32, float32(math.Ldexp(1, 63)), float32(math.Ldexp(1, 64)), -float32(math.Ldexp(1, 31)),
 		1e-40, bits(0x00000001), bits(0x00800000), math.MaxFloat32, -math.MaxFloat32, bits(0x7f7ffffc),
